@@ -80,9 +80,11 @@ def requests_for(r, group, n, dbg, storages=("o",), norm="valid", ops=None):
             elif op in BINARY_GG or op in ALIAS_GG:
                 a1, t1 = gen.element(r, group, norm=norm)
                 a2, t2 = gen.element(r, group, norm=norm)
-                if r.random() < 0.3:     # nearby pair: relative transform small
-                    d, t2 = gen.tangent(r, group, angle_only=["zero", "small", "below-switch", "above-switch", "low"])
-                    a2 = a1  # refined below by the caller when it wants true neighbours
+                u = r.random()
+                if u < 0.1:              # identical operands
+                    a2, t2 = a1, ["same"]
+                elif u < 0.35:           # true neighbours: small relative transform, any absolute position
+                    a2, t2 = gen.nudge(r, group, a1)
                 a, tags = a1 + a2, t1 + t2
             elif op in BINARY_TT:
                 a1, t1 = gen.tangent(r, group)
